@@ -85,7 +85,14 @@ class Net:
         if payload is None:
             # payloads are opaque to every element: nothing, a dict, a string full of format characters
             payload = (None, {"n": i}, '{"k": "%s {0} {}"}')[i % 3]
-        pkt = Packet(env.now - 1, size, self.per_flow[flow], src=src, flow_id=flow, payload=payload)
+        # flow ids are equal to the configured ones but not the same objects (ids computed per packet); every other packet
+        # is built with a provisional size and gets its real one before it is sent (encapsulation adds a header)
+        fid = int(str(flow)) if isinstance(flow, int) and not isinstance(flow, bool) else flow
+        if i % 2:
+            pkt = Packet(env.now - 1, size + 7, self.per_flow[flow], src=src, flow_id=fid, payload=payload)
+            pkt.size = size
+        else:
+            pkt = Packet(env.now - 1, size, self.per_flow[flow], src=src, flow_id=fid, payload=payload)
         self.seq += 1
         a = Arr(i, self.seq, env.now, self.step, flow, size, pkt)
         self.arrs.append(a)
